@@ -21,7 +21,19 @@ func (r res) ClientIP(fox.Context) (*net.IPAddr, error) {
 	return &net.IPAddr{IP: net.ParseIP(r.id)}, nil
 }
 
-var mwA fox.MiddlewareFunc = func(n fox.HandlerFunc) fox.HandlerFunc { return n }
+// trace records which middleware and handler ran for the request being served.
+var trace []string
+
+func recMw(id string) fox.MiddlewareFunc {
+	return func(n fox.HandlerFunc) fox.HandlerFunc {
+		return func(c fox.Context) {
+			trace = append(trace, id)
+			n(c)
+		}
+	}
+}
+
+var mwforScopes = map[int]fox.HandlerScope{1: fox.NoRouteHandler, 2: fox.RouteHandler | fox.NoMethodHandler, 3: fox.OptionsHandler | fox.RedirectHandler}
 
 type ifaceKey struct{ V any }
 type plainKey struct{ A, B int }
@@ -56,7 +68,7 @@ var annotKeys = []struct {
 var ptrKey = new(int)
 
 func globalOpts() []opt {
-	return []opt{{"redirect", 1}, {"redirect", 0}, {"ignore", 1}, {"ignore", 0}, {"resolver", 1}, {"resolver", 0}, {"middleware", 1}, {"middleware", 0}}
+	return []opt{{"redirect", 1}, {"redirect", 0}, {"ignore", 1}, {"ignore", 0}, {"resolver", 1}, {"resolver", 0}, {"middleware", 1}, {"middleware", 0}, {"mwfor", 1}, {"mwfor", 2}, {"mwfor", 3}}
 }
 
 func routeOpts() []opt {
@@ -67,8 +79,10 @@ func routeOpts() []opt {
 	return out
 }
 
-func toGlobal(o opt) fox.GlobalOption {
+func toGlobal(o opt, seq int) fox.GlobalOption {
 	switch o.Kind {
+	case "mwfor":
+		return fox.WithMiddlewareFor(mwforScopes[o.Arg], recMw(fmt.Sprintf("g%d", seq)))
 	case "redirect":
 		return fox.WithRedirectTrailingSlash(o.Arg == 1)
 	case "ignore":
@@ -82,7 +96,7 @@ func toGlobal(o opt) fox.GlobalOption {
 		if o.Arg == 0 {
 			return fox.WithMiddleware(nil)
 		}
-		return fox.WithMiddleware(mwA)
+		return fox.WithMiddleware(recMw(fmt.Sprintf("g%d", seq)))
 	}
 	panic("bad global option")
 }
@@ -102,7 +116,7 @@ func toRoute(o opt, seq int) fox.RouteOption {
 		if o.Arg == 0 {
 			return fox.WithMiddleware(nil)
 		}
-		return fox.WithMiddleware(mwA)
+		return fox.WithMiddleware(recMw(fmt.Sprintf("r%d", seq)))
 	case "annot":
 		return fox.WithAnnotation(annotKeys[o.Arg].key(), seq)
 	}
@@ -115,6 +129,7 @@ type model struct {
 	resolver         string // "", "1.1.1.1", "2.2.2.2"
 	invalid          bool
 	annots           map[int]int // key index -> last value
+	gmw, rmw         []string    // global middleware whose scope includes route handlers; route middleware
 }
 
 func (m *model) apply(o opt, seq int, global bool) {
@@ -141,6 +156,14 @@ func (m *model) apply(o opt, seq int, global bool) {
 	case "middleware":
 		if o.Arg == 0 {
 			m.invalid = true
+		} else if global {
+			m.gmw = append(m.gmw, fmt.Sprintf("g%d", seq))
+		} else {
+			m.rmw = append(m.rmw, fmt.Sprintf("r%d", seq))
+		}
+	case "mwfor":
+		if mwforScopes[o.Arg]&fox.RouteHandler != 0 {
+			m.gmw = append(m.gmw, fmt.Sprintf("g%d", seq))
 		}
 	case "annot":
 		if !annotKeys[o.Arg].valid {
@@ -171,7 +194,7 @@ func evalCase(cs Case) (class, msg string) {
 	var gopts []fox.GlobalOption
 	for i, o := range cs.Global {
 		gm.apply(o, i, true)
-		gopts = append(gopts, toGlobal(o))
+		gopts = append(gopts, toGlobal(o, i))
 	}
 	var f *fox.Router
 	var err error
@@ -192,13 +215,13 @@ func evalCase(cs Case) (class, msg string) {
 	if err != nil {
 		return "valid-rejected", fmt.Sprintf("fox.New returned %v: %s", err, desc)
 	}
-	rm := &model{redirect: gm.redirect, ignore: gm.ignore, resolver: gm.resolver}
+	rm := &model{redirect: gm.redirect, ignore: gm.ignore, resolver: gm.resolver, gmw: gm.gmw}
 	var ropts []fox.RouteOption
 	for i, o := range cs.Route {
 		rm.apply(o, i+1, false)
 		ropts = append(ropts, toRoute(o, i+1))
 	}
-	var h fox.HandlerFunc = func(c fox.Context) {}
+	var h fox.HandlerFunc = func(c fox.Context) { trace = append(trace, "h") }
 	if cs.NilH {
 		h = nil
 	}
@@ -276,6 +299,29 @@ func evalCase(cs Case) (class, msg string) {
 	}
 	if rt.ParamsLen() != p.NParams {
 		return "wrong-accessors", fmt.Sprintf("ParamsLen()=%d, the pattern has %d wildcards: %s", rt.ParamsLen(), p.NParams, desc)
+	}
+	// the middleware the route carries: router-wide ones scoped to route handlers, in registration
+	// order, outside the route's own; observed by serving a request that matches the pattern
+	if cs.Via == "NewRoute" {
+		if err := f.HandleRoute("GET", rt); err != nil {
+			return "valid-rejected", fmt.Sprintf("HandleRoute of the new route returned %v: %s", err, desc)
+		}
+	}
+	vals := make([]string, p.NParams)
+	for i := range vals {
+		vals[i] = "v"
+	}
+	host, path := p.Substitute(vals)
+	want := strings.Join(append(append(append([]string{}, rm.gmw...), rm.rmw...), "h"), ",")
+	trace = nil
+	f.ServeHTTP(fx.NewRW(), fx.Req("GET", host, path))
+	if got := strings.Join(trace, ","); got != want {
+		return "wrong-middleware", fmt.Sprintf("serving %s%s ran [%s], want [%s]: %s", host, path, got, want, desc)
+	}
+	trace = nil
+	rt.HandleMiddleware(fox.NewTestContextOnly(fx.NewRW(), fx.Req("GET", host, path)))
+	if got, w := strings.Join(trace, ","), strings.Join(append(append([]string{}, rm.rmw...), "h"), ","); got != w {
+		return "wrong-middleware", fmt.Sprintf("Route.HandleMiddleware ran [%s], want [%s]: %s", got, w, desc)
 	}
 	return "", ""
 }
